@@ -35,6 +35,17 @@ def _main_path(b, interesting):
             arms = sorted(((weight(tg), tg) for tg, _ in b.succ_edges(bi)), reverse=True)
             if arms and arms[0][0] > 0 and (len(arms) == 1 or arms[0][0] > arms[1][0]):
                 nxt = arms[0][1]
+            elif len(arms) == 2 and arms[0][0] == arms[1][0] > 0:
+                # a diamond (`if flag { b0 |= .. }`): both arms rejoin; follow one if neither does any read/write
+                # of the wire buffer before the join
+                r1, r2 = b.reachable([arms[0][1]]), b.reachable([arms[1][1]])
+                excl = (r1 ^ r2)
+                if not any(b.blocks[y]["t"]["k"] == "call" and (mir.callee_path(b.blocks[y]["t"]["f"]) or "").endswith(interesting)
+                           for y in excl):
+                    nxt = min(arms[0][1], arms[1][1], key=lambda x: len(b.reachable([x])))
+                    # take the arm that reaches fewer blocks first? no: take the one that is the join itself if any
+                    if arms[0][1] in r2 and arms[0][1] != arms[1][1]:
+                        nxt = arms[1][1] if arms[1][1] not in r1 else arms[0][1]
         bi = nxt
     return out
 
@@ -87,13 +98,20 @@ def parser_layout(b, adt_prefix=None):
     out = {}
     cur = 0
     got = {}              # dst local of a sequential get -> offsets
+    cursor = None
     for bi in _main_path(b, READ_CALLS + ("::split_to",)):
         t = b.blocks[bi]["t"]
         if t["k"] != "call":
             continue
         p = mir.callee_path(t["f"]) or ""
         name = p.split("::")[-1]
+        if cursor is not None and cur is not None and name not in GETS and name not in ("advance", "remaining", "len", "is_empty", "has_remaining", "chunk"):
+            # anything else that gets hold of the cursor (a closure capturing it, a helper taking &mut) may consume bytes
+            if any(mir.has(b.term_operand(a), lambda x: x == cursor) for a in t["a"]):
+                cur = None
         if name in GETS and ("Buf" in p or "bytes" in p) and cur is not None:
+            if cursor is None and t["a"]:
+                cursor = b.term_operand(t["a"][0])
             w = GETS[name]
             if "p" not in t["dst"]:
                 got[t["dst"]["l"]] = set(range(cur, cur + w))
